@@ -96,7 +96,7 @@ def lname(layout):
 
 
 # ---------------------------------------------------------------- data shapes
-DATA_KINDS = ['white', 'ar1', 'const', 'alt', 'count']
+DATA_KINDS = ['white', 'ar1', 'const', 'alt', 'count']  # + 'walk' (C02/C03: no window before the cap)
 
 
 def data(kind, cfgs, r, mean=1.0, sigma=0.1):
@@ -113,6 +113,10 @@ def data(kind, cfgs, r, mean=1.0, sigma=0.1):
         x[0] = e[0]
         for i in range(1, span):
             x[i] = a * x[i - 1] + np.sqrt(1 - a * a) * e[i]
+        return mean + sigma * x[[c - cfgs[0] for c in cfgs]]
+    if kind == 'walk':
+        span = cfgs[-1] - cfgs[0] + 1
+        x = np.cumsum(r.normal(size=span))
         return mean + sigma * x[[c - cfgs[0] for c in cfgs]]
     if kind == 'const':
         return np.full(n, float(mean))
